@@ -150,6 +150,7 @@ class Session:
         except kernel.SimAbort:
             raise
         except BaseException as e:
+            engine_g.raise_if_harness_fault(e)
             rec.exc = e
             rec.exc_type = type(e).__name__
             rec.exc_msg = str(e)[:300]
